@@ -108,6 +108,11 @@ def run(ck):
     ctx = ck.ctx
     p = ctx.p
     truncation(ck)
+    ck.clause("C18.10", "the XMAP columns are read at pandas' default precision: no narrow dtype anywhere in the XMAP reader chain "
+                        "(a float32 moves coordinates above 16.7 Mb by one or two base pairs before int() truncates them)")
+    from .c17 import no_narrowing
+    no_narrowing(ck, "C18.10", modules=("src.parsers.xmap_reader", "src.parsers.bionano_file_reader",
+                                        "src.parsers.xmap_alignment_pair_parser", "src.correlation.bionano_alignment"), floor=15)
     parser_maps(ck)
     w = extract_writer(ck)
     r = extract_reader(ck)
